@@ -359,9 +359,11 @@ def run_shard(ctx):
             outs.setdefault((code, digest), []).append(seed)
         ctx.count("cli.compared")
         files = {}
-        for tag, (seed, extra) in enumerate([(seeds[0], {}), (seeds[1 % len(seeds)], C_LOCALE), ("random", C_LOCALE)]):
+        # (other hash seeds, the C locale, and time zones half a day apart - the local DATE differs between them)
+        for tag, (seed, extra) in enumerate([(seeds[0], {"TZ": "UTC"}), (seeds[1 % len(seeds)], {**C_LOCALE, "TZ": "WEST12"}),
+                                             ("random", {**C_LOCALE, "TZ": "EAST-14"})]):
             files.setdefault(run_cli_output(directory, path, seed, extra, tag), []).append(
-                f"{seed}{'+C-locale' if extra else ''}")
+                f"{seed}+{'C-locale+' if 'LC_ALL' in extra else ''}TZ={extra['TZ']}")
         ctx.count("cli.output_file_compared")
         if len(files) > 1:
             ctx.witness("cli_output_depends_on_process", {"files": doc["files"], "entry": doc["entry"], "route": "--output"},
